@@ -210,6 +210,11 @@ Proof.
   inversion F2 as [|? ? (b2 & ->) F3]; subst. exists b0, b1, b2. reflexivity.
 Qed.
 
+Lemma existsb_neg_false' : forall a b c : Z * Z,
+  existsb (fun p => (fst p <? 0) || (snd p <? 0)) [a; b; c] = false ->
+  0 <= fst a /\ 0 <= snd a /\ 0 <= fst b /\ 0 <= snd b /\ 0 <= fst c /\ 0 <= snd c.
+Proof. intros [a a'] [b b'] [c c']; cbn. lia. Qed.
+
 Section Generic.
 Variable R : Type.
 Variables (rO : R) (radd rmul rsub : R -> R -> R) (ropp : R -> R).
@@ -411,6 +416,102 @@ Proof.
   intros ops v Hn. unfold run_tr.
   apply (run_tr_lift VBij op_rearr (fun v v' v'' f1 f2 => Bij_comp _ _ _ f1 f2) step_tr_Bij ops v (v, imap_id) Hn).
   apply Bij_id.
+Qed.
+
+(* ---- no voxel is duplicated: the index map of EVERY operation (pad included) and of every
+   history is injective on the voxels that have a pre-image, and pre-images lie in the box *)
+Definition Inj (s s' : idx) (f : imap) : Prop :=
+  wf s -> wf s' /\
+  (forall j i, inr s' j -> f j = Some i -> inr s i) /\
+  (forall j j' i, inr s' j -> inr s' j' -> f j = Some i -> f j' = Some i -> j = j').
+Definition VInj (v v' : volT) (f : imap) : Prop := Inj (v_shape _ _ v) (v_shape _ _ v') f.
+
+Lemma Inj_id : forall s, Inj s s imap_id.
+Proof.
+  intros s W. split; [exact W|]. unfold imap_id. split.
+  - intros j i Hj E. inversion E; subst. exact Hj.
+  - intros j j' i _ _ E1 E2. congruence.
+Qed.
+
+Lemma Inj_comp : forall s s' s'' f1 f2, Inj s s' f1 -> Inj s' s'' f2 -> Inj s s'' (imap_comp f2 f1).
+Proof.
+  intros s s' s'' f1 f2 B1 B2 W. destruct (B1 W) as (W1 & R1 & I1). destruct (B2 W1) as (W2 & R2 & I2).
+  split; [exact W2|]. unfold imap_comp. split.
+  - intros j i Hj E. destruct (f2 j) as [m|] eqn:Em; [|discriminate]. eapply R1; [eapply R2|]; eassumption.
+  - intros j j' i Hj Hj' E1 E2.
+    destruct (f2 j) as [m|] eqn:Em; [|discriminate]. destruct (f2 j') as [m'|] eqn:Em'; [|discriminate].
+    assert (m = m') by (eapply I1; [eapply R2; [exact Hj|exact Em]|eapply R2; [exact Hj'|exact Em']|exact E1|exact E2]).
+    subst m'. eapply I2; eassumption.
+Qed.
+
+Lemma Bij_Inj : forall s s' f, Bij s s' f -> Inj s s' f.
+Proof.
+  intros s s' f B W. destruct (B W) as (W' & T & _ & I). split; [exact W'|]. split; [|exact I].
+  intros j i Hj E. destruct (T j Hj) as (i' & E' & Hi). congruence.
+Qed.
+
+Lemma get_Inj : forall shape ix p, prep_getitem shape ix = Ok p -> Inj shape (gp_n p) (get_map p).
+Proof.
+  intros shape ix p H W. destruct (prep_getitem_spec shape ix p W H) as (W' & T).
+  pose proof (prep_getitem_steps shape ix p W H) as S.
+  split; [exact W'|]. split.
+  - intros j i Hj E. destruct (T j Hj) as (i' & E' & Hi). congruence.
+  - destruct p as [[[f0 f1] f2] [[s0 s1] s2] n]. cbn [gp_s] in S. destruct S as (S0 & S1 & S2).
+    intros [[j0 j1] j2] [[k0 k1] k2] i _ _ E1 E2. cbn [get_map gp_f gp_s] in E1, E2.
+    rewrite <- E2 in E1. inversion E1.
+    assert (j0 = k0) by nia. assert (j1 = k1) by nia. assert (j2 = k2) by nia. subst. reflexivity.
+Qed.
+
+Lemma vol_get_VInj : forall v ix v' f, vget v ix = Ok (v', f) -> VInj v v' f.
+Proof.
+  intros v ix v' f H. unfold vol_get in H. inv_bind H as p Ep. inversion H; subst; clear H.
+  unfold VInj. cbn [v_shape]. eapply get_Inj; exact Ep.
+Qed.
+
+Lemma vol_pad_VInj : forall v w m cv pc v' f, vpad v w m cv pc = Ok (v', f) -> VInj v v' f.
+Proof.
+  intros v w m cv pc v' f H.
+  destruct (vol_pad_inv R radd rmul inj Vx padval _ _ _ _ _ _ _ H) as (l & El & Ex & _ & ES & _ & _ & _ & Ef & _).
+  destruct (prep_pad_width_len _ _ El) as (a & b & c & ->).
+  destruct (existsb_neg_false' _ _ _ Ex) as (A0 & A1 & B0 & B1 & C0 & C1).
+  destruct a as [a0 b0], b as [a1 b1], c as [a2 b2]. cbn [pw_triple fst snd] in *.
+  unfold VInj. rewrite ES, Ef. destruct (v_shape _ _ v) as [[n0 n1] n2]. intros W.
+  split; [cbn in *; lia|]. split.
+  - intros [[j0 j1] j2] i Hj E.
+    pose proof (pad_map_spec (n0, n1, n2) a0 b0 a1 b1 a2 b2 (j0, j1, j2) A0 A1 B0 B1 C0 C1 Hj) as Hs.
+    rewrite E in Hs. apply Hs.
+  - intros [[j0 j1] j2] [[k0 k1] k2] i Hj Hk E1 E2.
+    pose proof (pad_map_spec (n0, n1, n2) a0 b0 a1 b1 a2 b2 (j0, j1, j2) A0 A1 B0 B1 C0 C1 Hj) as Hs1.
+    pose proof (pad_map_spec (n0, n1, n2) a0 b0 a1 b1 a2 b2 (k0, k1, k2) A0 A1 B0 B1 C0 C1 Hk) as Hs2.
+    rewrite E1 in Hs1. rewrite E2 in Hs2. destruct Hs1 as (_ & H1). destruct Hs2 as (_ & H2).
+    rewrite H1 in H2. inversion H2. f_equal; [f_equal|]; lia.
+Qed.
+
+Theorem step_injective : forall v o v' f, vstep_sp v o = Ok (v', f) ->
+  Inj (v_shape _ _ v) (v_shape _ _ v') f.
+Proof.
+  intros v o v' f H. unfold vol_step_sp in H.
+  apply (step_sp_lift R rO radd rmul rsub ropp ltb Vx volT (v_aff R Vx) (v_shape R Vx) (v_patient R Vx)
+           vget vpad vperm VInj
+           (fun t => Inj_id _) (fun t t' t'' f1 f2 => Inj_comp _ _ _ f1 f2)
+           vol_get_VInj vol_pad_VInj
+           (fun t l t' f0 E => Bij_Inj _ _ _ (vol_perm_VBij t l t' f0 E)) v o v' f H).
+Qed.
+
+Lemma step_tr_Inj : forall v o v' f, true = true -> vstep_tr v o = Ok (v', f) -> VInj v v' f.
+Proof.
+  intros v o v' f _ H. pose proof (step_tr_geometry R rO radd rmul rsub ropp inj ltb Vx padval v o v' f H) as G.
+  destruct o; [apply (step_injective v o v' f H)|..];
+    destruct G as (-> & _ & ES & _); unfold VInj; rewrite ES; apply Inj_id.
+Qed.
+
+Theorem history_injective : forall ops v,
+  Inj (v_shape _ _ v) (v_shape _ _ (fst (vrun_tr v ops))) (snd (vrun_tr v ops)).
+Proof.
+  intros ops v. unfold run_tr.
+  apply (run_tr_lift VInj (fun _ => true) (fun v v' v'' f1 f2 => Inj_comp _ _ _ f1 f2) step_tr_Inj ops v (v, imap_id)).
+  - induction ops; [reflexivity|exact IHops].
+  - apply Inj_id.
 Qed.
 
 (* ---- the geometry-only object follows every finite history *)
